@@ -1111,6 +1111,141 @@ fn panics_engine(rounds: usize, seed: u64) -> String {
             if nfail == 0 { 1 } else { 0 }, nfail, rounds, ops, p_create, p_hit, p_retain, p_visit, poisoned.len(), ops_poisoned, errs.join(" | "))
 }
 
+// ---- the registry is generic in K: Hashable: other key types, judged by a reference map keyed by contents ----
+// Registry hard-wires its maps to KeyHasher and looks entries up by `key.hashable()`, while insertions and
+// resizes re-hash the stored key through the map's hasher: a key type is usable only if hashable() is the
+// KeyHasher hash of its `Hash` impl and equal keys hash alike. For each key type: that contract on samples,
+// then a bulk history (enough keys that every shard's table resizes several times).
+struct DblG { next: AtomicU64 }
+impl<K> Storage<K> for DblG {
+    type Counter = H;
+    type Gauge = H;
+    type Histogram = H;
+    fn counter(&self, _: &K) -> H { H(Arc::new(Cell { id: self.next.fetch_add(1, SeqCst) })) }
+    fn gauge(&self, _: &K) -> H { H(Arc::new(Cell { id: self.next.fetch_add(1, SeqCst) })) }
+    fn histogram(&self, _: &K) -> H { H(Arc::new(Cell { id: self.next.fetch_add(1, SeqCst) })) }
+}
+
+// hand-written key type with a deliberately weak hash (61 distinct values): Hash feeds only id % 61,
+// Eq compares everything; hashable() is the trait default through Hasher = KeyHasher
+#[derive(Clone, Debug, PartialEq, Eq)]
+struct WeakKey { id: u64, text: String }
+impl std::hash::Hash for WeakKey { fn hash<S: std::hash::Hasher>(&self, state: &mut S) { (self.id % 61).hash(state) } }
+impl metrics_util::Hashable for WeakKey { type Hasher = metrics::KeyHasher; }
+
+fn generic_bulk<K, M, C>(name: &str, mk: M, class_of: C, nkeys: u64, nops: u64, seed: u64, errs: &mut Vec<String>) -> (u64, String)
+where K: Clone + Eq + std::hash::Hash + metrics_util::Hashable + std::fmt::Debug, M: Fn(u64) -> K, C: Fn(&K) -> u64 {
+    let reg: Registry<K, DblG> = Registry::new(DblG { next: AtomicU64::new(0) });
+    let mask = (reg.__verif_shard_count() - 1) as u64;
+    let mut x: u64 = seed.wrapping_mul(0x9E3779B97F4A7C15) | 1;
+    let mut rnd = move || { x ^= x << 13; x ^= x >> 7; x ^= x << 17; x };
+    let mut nfail = 0u64;
+    macro_rules! fail { ($($a:tt)*) => {{ nfail += 1; if errs.len() < 4 { errs.push(format!("{}: {}", name, format!($($a)*))); } }} }
+    // the key contract on samples
+    for _ in 0..200 {
+        let (i, j) = (rnd() % nkeys, rnd() % nkeys);
+        let (a, b, c) = (mk(i), mk(i), mk(j));
+        if a != b || a.hashable() != b.hashable() { fail!("two builds of key {} are not == with equal hashable()", i); }
+        if i != j && a == c { fail!("keys {} and {} are == (driver bug)", i, j); }
+        if class_of(&a) != i { fail!("class_of is wrong for {} (driver bug)", i); }
+    }
+    let kinds = ['c', 'g', 'h'];
+    let goc = |kind: char, k: &K| -> u64 { match kind {
+        'c' => reg.get_or_create_counter(k, |h| h.0.id), 'g' => reg.get_or_create_gauge(k, |h| h.0.id), _ => reg.get_or_create_histogram(k, |h| h.0.id) } };
+    let get = |kind: char, k: &K| -> Option<u64> { match kind {
+        'c' => reg.get_counter(k).map(|h| h.0.id), 'g' => reg.get_gauge(k).map(|h| h.0.id), _ => reg.get_histogram(k).map(|h| h.0.id) } };
+    let del = |kind: char, k: &K| -> bool { match kind { 'c' => reg.delete_counter(k), 'g' => reg.delete_gauge(k), _ => reg.delete_histogram(k) } };
+    let listing = |kind: char| -> Vec<(u64, u64)> {
+        let mut v = Vec::new();
+        match kind {
+            'c' => reg.visit_counters(|k, h| v.push((class_of(k), h.0.id))),
+            'g' => reg.visit_gauges(|k, h| v.push((class_of(k), h.0.id))),
+            _ => reg.visit_histograms(|k, h| v.push((class_of(k), h.0.id))),
+        }
+        v.sort(); v };
+    let handles = |kind: char| -> Vec<(u64, u64)> {
+        let mut v: Vec<(u64, u64)> = match kind {
+            'c' => reg.get_counter_handles().iter().map(|(k, h)| (class_of(k), h.0.id)).collect(),
+            'g' => reg.get_gauge_handles().iter().map(|(k, h)| (class_of(k), h.0.id)).collect(),
+            _ => reg.get_histogram_handles().iter().map(|(k, h)| (class_of(k), h.0.id)).collect(),
+        };
+        v.sort(); v };
+    let mut live: HashMap<(char, u64), u64> = HashMap::new();
+    let mut max_shard: HashMap<(char, u64), u64> = HashMap::new();   // largest population seen per (kind, shard)
+    let (mut n_retain, mut n_clear, mut n_check) = (0u64, 0u64, 0u64);
+    for opn in 0..nops {
+        let kind = kinds[(rnd() % 3) as usize];
+        let i = if opn < nkeys { (opn * 7919) % nkeys } else { rnd() % nkeys };   // first: create every key once
+        let key = mk(i);
+        let what = if opn < nkeys { 0 } else { rnd() % 16 };
+        match what {
+            0..=6 => {
+                let id = goc(kind, &key);
+                match live.get(&(kind, i)) {
+                    Some(w) => if *w != id { fail!("get_or_create {}{} returned storage {} but the key already has {}", kind, i, id, w); },
+                    None => {
+                        if live.values().any(|y| *y == id) && opn % 64 == 0 { fail!("get_or_create of absent {}{} returned another key's storage {}", kind, i, id); }
+                        live.insert((kind, i), id);
+                    }
+                }
+            }
+            7..=10 => { let (g, w) = (get(kind, &key), live.get(&(kind, i)).copied()); if g != w { fail!("get {}{} returned {:?}, the key's storage is {:?}", kind, i, g, w); } }
+            11..=13 => { let (b, w) = (del(kind, &key), live.remove(&(kind, i)).is_some()); if b != w { fail!("delete {}{} returned {} but the key was {}", kind, i, b, if w { "present" } else { "absent" }); } }
+            _ => {}
+        }
+        if opn % 997 == 0 {
+            let mut pop: HashMap<(char, u64), u64> = HashMap::new();
+            for ((k, c), _) in live.iter() { *pop.entry((*k, mk(*c).hashable() & mask)).or_insert(0) += 1; }
+            for (ks, n) in pop { let e = max_shard.entry(ks).or_insert(0); if n > *e { *e = n; } }
+        }
+        let sweep = if opn > nkeys && opn % 4001 == 0 { 1 } else if opn > nkeys && opn % 9973 == 0 { 2 } else if opn + 1 == nops || opn % 2503 == 0 { 3 } else { 0 };
+        if sweep == 1 {
+            let m = 2 + rnd() % 4; n_retain += 1;
+            let mut offered = 0u64;
+            match kind {
+                'c' => reg.retain_counters(|k, _| { offered += 1; class_of(k) % m != 0 }),
+                'g' => reg.retain_gauges(|k, _| { offered += 1; class_of(k) % m != 0 }),
+                _ => reg.retain_histograms(|k, _| { offered += 1; class_of(k) % m != 0 }),
+            }
+            let want = live.keys().filter(|(k, _)| *k == kind).count() as u64;
+            if offered != want { fail!("retain_{} offered {} entries to its predicate, {} are live", kind, offered, want); }
+            live.retain(|(k, c), _| *k != kind || *c % m != 0);
+        }
+        if sweep == 2 { reg.clear(); live.clear(); n_clear += 1; }
+        if sweep != 0 {
+            n_check += 1;
+            for kind in kinds {
+                let want: Vec<(u64, u64)> = { let mut v: Vec<(u64, u64)> = live.iter().filter(|((k, _), _)| *k == kind).map(|((_, c), id)| (*c, *id)).collect(); v.sort(); v };
+                let v = listing(kind);
+                if v != want { fail!("visit of {} lists {} entries, the reference map {} ({} listed more than once)", kind, v.len(), want.len(), v.windows(2).filter(|w| w[0].0 == w[1].0).count()); }
+                let hl = handles(kind);
+                if hl != want { fail!("handles listing of {} has {} entries, the reference map {}", kind, hl.len(), want.len()); }
+            }
+        }
+    }
+    // hashbrown grows at 3, 7, 14, 28, 56, ... entries: how many growth steps did the fullest state of every shard need
+    let resizes: u64 = max_shard.values().map(|n| [3u64, 7, 14, 28, 56, 112, 224, 448, 896, 1792].iter().filter(|t| *n > **t).count() as u64).sum();
+    (nfail, format!("{} keys={} ops={} retains={} clears={} listings_checked={} shard_tables_grown={} (max per-shard population {})",
+                    name, nkeys, nops, n_retain, n_clear, n_check, resizes, max_shard.values().max().copied().unwrap_or(0)))
+}
+
+fn genkeys(nkeys: u64, nops: u64, seed: u64) -> String {
+    use metrics_util::DefaultHashable;
+    metrics::__verif::set_callback(None);
+    let mut errs: Vec<String> = Vec::new();
+    let mut total = 0u64;
+    let mut rows = Vec::new();
+    let r = generic_bulk("DefaultHashable<String>", |i| DefaultHashable(format!("key-{}", i)), |k: &DefaultHashable<String>| k.0[4..].parse().unwrap(), nkeys, nops, seed, &mut errs);
+    total += r.0; rows.push(r.1);
+    let r = generic_bulk("DefaultHashable<u64>", |i| DefaultHashable(i.wrapping_mul(0x9E3779B97F4A7C15)), |k: &DefaultHashable<u64>| k.0.wrapping_mul(0xF1DE83E19937733D), nkeys, nops, seed + 1, &mut errs);
+    total += r.0; rows.push(r.1);
+    let r = generic_bulk("DefaultHashable<(u64, String)>", |i| DefaultHashable((i % 5, format!("t{}", i))), |k: &DefaultHashable<(u64, String)>| (k.0).1[1..].parse().unwrap(), nkeys, nops, seed + 2, &mut errs);
+    total += r.0; rows.push(r.1);
+    let r = generic_bulk("WeakKey (61 hash values)", |i| WeakKey { id: i, text: format!("w{}", i) }, |k: &WeakKey| k.id, nkeys / 2, nops / 2, seed + 3, &mut errs);
+    total += r.0; rows.push(r.1);
+    format!("GENKEYS ok={} failures={} ; {} ; {}", if total == 0 { 1 } else { 0 }, total, rows.join(" | "), errs.join(" | "))
+}
+
 // only this property's own yield sites take part in the schedule: instrumented code of other
 // properties reached from here (e.g. Key::get_hash under a registry lock) must pass through
 fn own_site(site: u32) -> bool { (601..=615).contains(&site) }
@@ -1141,6 +1276,12 @@ fn main() {
             let a: Vec<u64> = r.split_whitespace().map(|x| x.parse().unwrap()).collect();
             let r = std::panic::catch_unwind(move || panics_engine(a[0] as usize, a[1]));
             writeln!(w, "{}", r.unwrap_or_else(|_| "PANICS ok=0 failures=1 ; the engine panicked".to_string())).unwrap();
+            continue;
+        }
+        if let Some(r) = line.trim().strip_prefix("GENKEYS") {
+            let a: Vec<u64> = r.split_whitespace().map(|x| x.parse().unwrap()).collect();
+            let r = std::panic::catch_unwind(move || genkeys(a[0], a[1], a[2]));
+            writeln!(w, "{}", r.unwrap_or_else(|_| "GENKEYS ok=0 failures=1 ; ; the engine panicked".to_string())).unwrap();
             continue;
         }
         if line.trim() == "ATABLE" { writeln!(w, "{}", atable()).unwrap(); continue; }
